@@ -245,7 +245,11 @@ xrcmd(char *ahost, char *addr, char *locuser, char *remuser,
             continue;
         }
         if (errno == ECONNREFUSED && timo <= 16) {
-            (void) sleep(timo);
+            if (sleep(timo) != 0) { /* interrupted: connect timeout expired */
+                err("%p: %S: connect: timed out\n", ahost);
+                pthread_sigmask(SIG_SETMASK, &oldset, NULL);
+                return (-1);
+            }
             timo *= 2;
             continue;
         }
